@@ -183,7 +183,7 @@ def cyk_name_specs():
 
 
 def batch_of(cases):
-    return {'cases': [{'G': c['G'], 'cyclic': c['cyclic'], 'multitok': bool(c.get('multitok')), 'inputs': [{'w': i['w'], 'toks': i.get('toks', []), 'vmap': i.get('vmap', []), 'obs': [{k: o[k] for k in ('cfg', 'out', 'tree', 'must')} for o in i['obs']],
+    return {'cases': [{'G': c['G'], 'cyclic': c['cyclic'], 'multitok': bool(c.get('multitok')), 'exact': str(c.get('family', '')).startswith(('F_bnf', 'F_rand', 'F_mtok')), 'inputs': [{'w': i['w'], 'toks': i.get('toks', []), 'vmap': i.get('vmap', []), 'obs': [{k: o[k] for k in ('cfg', 'out', 'tree', 'must')} for o in i['obs']],
                                                                       'exp': [{k: o[k] for k in ('cfg', 'out', 'tree', 'collrun', 'collok', 'coll', 'one', 'isamb') if k in o} for o in i['exp']]} for i in c['inputs']]} for c in cases]}
 
 
